@@ -549,7 +549,19 @@ Dev_F27V ==
   /\ ~(\E y \in ViewVals(E.view, E.to) : IF E.op = "view_dur" THEN DurIs(E.res, y) ELSE Dy!WithinUlps(E.res, y, Ur[E.u].m, Ur[4].m, 4))
   /\ Known("F27")
 
+(* C07: dynamical scales.  The conversions themselves are judged by TrToScale / TrToDur through *)
+(* ConvAny (closed form +/- 30 ns).  Round trip: uniform -> ET|TDB -> back within 20 ns.           *)
+TrRoundTrip == IsOp("round_trip") /\ KeepAll /\ UNCHANGED sw /\ IsEp(E.res) /\ E.res.ts = e.ts
+               /\ B!Le(B!Abs(B!Sub(DV(E.res), e.v)), B!FromInt(20))
+(* sorted sweep: instants more than 100 ns apart keep their order through the conversion *)
+TrSweepDyn == IsOp("sweep_dyn") /\ KeepAll /\ IsEp(E.res) /\ E.res.ts = E.to
+               /\ X!ConvAny(EV(E.src), E.to, EV(E.res))
+               /\ (IF E.first THEN TRUE
+                   ELSE (B!Lt(B!Add(sw[1], B!FromInt(100)), DV(E.src)) => B!Lt(sw[2], DV(E.res))))
+               /\ sw' = <<DV(E.src), DV(E.res)>>
+
 FloatNext ==
+  \/ TrRoundTrip \/ TrSweepDyn
   \/ Dev_F27V
   \/ Dev_F1F
   \/ TrF64Unit \/ TrMulF64 \/ (TrToUnit /\ UNCHANGED sw) \/ TrSweepUnit
